@@ -311,6 +311,8 @@ func (ch *channel) receivedSegData(rsd recSegData) {
 		if rsd.isLmsg {
 			log.Info("Received lsmg indicating last segment")
 		}
+		// All registered tracks, also late ones, must have a segment before a number is listed
+		ch.segTimesGen.setNrTracks(uint32(len(ch.trDatas)))
 		newSeqNr, err := ch.segTimesGen.addSegmentData(log, rsd)
 		if err != nil {
 			log.Error("Failed to add segment data", "err", err)
